@@ -201,7 +201,7 @@ def run_kani(scratch, harnesses, features="default", zflags=(), timeout_s=600, j
     return results, wall, " ".join(cmd), out
 
 
-def kani_playback(scratch, harness, features="default", zflags=(), timeout_s=600, extra=()):
+def kani_playback(scratch, harness, features="default", zflags=(), timeout_s=600, extra=(), native=True):
     """Re-run one failing harness with concrete playback, insert the generated unit test into
     the harness module and execute it natively against the same sources."""
     cmd = ["cargo", "kani", "-Z", "unstable-options", "--output-format", "terse", "-Z", "concrete-playback",
@@ -221,6 +221,8 @@ def kani_playback(scratch, harness, features="default", zflags=(), timeout_s=600
     if not tests:
         return None, "no concrete test produced by Kani", out[-3000:]
     test = tests[0]
+    if not native:
+        return test, "", ""
     m = re.search(r"fn (kani_concrete_playback_\w+)", test)
     tname = m.group(1)
     # insert into the harness module of the file that defines the harness
